@@ -71,20 +71,34 @@ Proof.
   rewrite forallb_forall in H. apply Forall_forall. exact H.
 Qed.
 
+(* a byte that may serve as the right quote: ASCII and not an identifier char *)
+Definition is_quote_byte (r : N) : bool := (r <? 128) && negb (is_iden_char r).
+
 Lemma fast_path_is_general_quoting name q :
-  must_be_valid_iden name = true -> q = 96 \/ q = 34 ->
-  fast_prepare q name = iden_prepare q name.
+  must_be_valid_iden name = true -> is_quote_byte (q_right q) = true ->
+  fast_prepare q name = general_prepare q name.
 Proof.
-  intros Hv Hq. unfold fast_prepare, iden_prepare, iden_quoted.
+  intros Hv Hq. unfold fast_prepare, general_prepare, general_quoted.
   rewrite replace_char_absent; [reflexivity|].
   eapply Forall_impl; [|apply valid_iden_chars; exact Hv].
-  intros c Hc. apply iden_char_not_quote in Hc. destruct Hq; subst; tauto.
+  intros c Hc ->. unfold is_quote_byte in Hq. rewrite Hc in Hq.
+  rewrite andb_false_r in Hq. discriminate.
 Qed.
 
-(* the hypothesis q = backtick or double quote is needed: a quote char that is an identifier char
-   would not be doubled by the fast path *)
+(* the bundled backends: backtick, double quote; and brackets *)
+Lemma quote_bytes_examples :
+  is_quote_byte 96 = true /\ is_quote_byte 34 = true /\ is_quote_byte 93 = true /\ is_quote_byte 91 = true.
+Proof. repeat split; reflexivity. Qed.
+
+(* with left = right the general path is iden_prepare of Model/Literal.v (C04) *)
+Lemma general_prepare_sym q name : general_prepare (sym_quote q) name = iden_prepare q name.
+Proof. reflexivity. Qed.
+
+(* the hypothesis on the right quote is needed: a quote byte that is an identifier char would not be
+   doubled by the fast path *)
 Lemma fast_path_needs_non_iden_quote :
-  must_be_valid_iden [97; 95] = true /\ fast_prepare 95 [97; 95] <> iden_prepare 95 [97; 95].
+  must_be_valid_iden [97; 95] = true
+  /\ fast_prepare (sym_quote 95) [97; 95] <> general_prepare (sym_quote 95) [97; 95].
 Proof. split; [reflexivity|discriminate]. Qed.
 
 Lemma variant_is_valid_arm tn var :
@@ -113,8 +127,8 @@ Proof.
 Qed.
 
 Theorem derived_prepare_is_general menv t v q :
-  q = 96 \/ q = 34 ->
-  derived_prepare menv q t v = option_map (iden_prepare q) (unquoted menv t v).
+  is_quote_byte (q_right q) = true ->
+  derived_prepare menv q t v = option_map (general_prepare q) (unquoted menv t v).
 Proof.
   intros Hq. unfold derived_prepare. destruct (unquoted menv t v) as [name|] eqn:Hu; [|reflexivity].
   cbn [option_map]. destruct (has_fast_prepare t) eqn:Hf; [|reflexivity].
